@@ -1,24 +1,53 @@
 (* Corr/C17.v — executable check for one C17 case: run the model of trace_context and the
-   tracing "by definition" and compare both with what the implementation returned. *)
+   tracing "by definition" and compare both with what the implementation returned.
+   The lattice is described by the extents of its concepts (they define its order) and their
+   intents; the model walks the TRUE cover relation of that list (Spec/Covers.v), so that a
+   stale or wrong children_dict of the implementation shows up as a wrong trace. *)
 From FCA Require Export Corr.Common Model.TraceContext Spec.Trace.
+
+(* the traced context with the intents of the lattice's concepts *)
+Inductive tctx :=
+| TFormal (intents : list (list nat)) (t : table)
+| TMV (intents : list mv_intent) (n_objects : nat) (cols : list column).
 
 Record c17_case := {
   q_exts : list (list nat);      (* extents of the lattice's concepts (they define its order) *)
-  q_intents : list (list nat);   (* intents of the lattice's concepts *)
-  q_children : list (list nat);  (* the lattice's children_dict *)
+  q_ctx : tctx;                  (* intents of the concepts + the traced context *)
+  q_children : list (list nat);  (* the lattice's children_dict as the implementation reports it *)
   q_top : nat;                   (* the lattice's top index *)
   q_mono : bool;                 (* is_monotone *)
-  q_table : table;               (* the traced context *)
-  q_names : list nat;            (* its object names (ids) *)
+  q_names : list nat;            (* object names (ids) of the traced context *)
   q_byindex : bool;              (* use_object_indices *)
   (* the two returned dictionaries as (key, members) lists: bottom concepts, traced concepts *)
   q_impl : ires (list (nat * list nat) * list (nat * list nat))
 }.
 
+Definition q_n (c : c17_case) : nat := length (q_exts c).
+Definition q_lt (c : c17_case) : nat -> nat -> bool := incl_lt (q_exts c).
+Definition q_h (c : c17_case) : nat :=
+  match q_ctx c with TFormal _ t => height t | TMV _ h _ => h end.
+
+(* the greatest concept of the list (the implementation's self.top is only a fallback) *)
+Definition q_true_top (c : c17_case) : nat :=
+  match find (is_topb (q_lt c) (q_n c)) (seq 0 (q_n c)) with Some t => t | None => q_top c end.
+
 Definition q_lattice (c : c17_case) : lattice :=
-  {| lt_intents := q_intents c; lt_children := fun i => nth i (q_children c) [];
-     lt_top := q_top c; lt_support := fun i => length (nth i (q_exts c) []);
+  {| lt_len := q_n c; lt_children := lower_covers (q_lt c) (q_n c);
+     lt_top := q_true_top c; lt_support := fun i => length (nth i (q_exts c) []);
      lt_monotone := q_mono c |}.
+
+Definition q_mvctx (h : nat) (cols : list column) : mvctx := mkMV h cols [] [] [].
+
+Definition q_ext (c : c17_case) : nat -> list nat :=
+  match q_ctx c with
+  | TFormal intents t => formal_ext BBitarray intents t
+  | TMV intents h cols => mv_ext (q_mvctx h cols) intents
+  end.
+Definition q_sat (c : c17_case) : nat -> nat -> bool :=
+  match q_ctx c with
+  | TFormal intents t => sat_formal intents t
+  | TMV intents h cols => sat_mv intents cols
+  end.
 
 Fixpoint assoc (k : nat) (l : list (nat * list nat)) : option (list nat) :=
   match l with
@@ -39,30 +68,40 @@ Definition c17_key (c : c17_case) : nat -> nat :=
 Fixpoint nodupb (l : list nat) : bool :=
   match l with [] => true | x :: l' => negb (mem x l') && nodupb l' end.
 
+Definition desc_okb (col : column) (d : desc) : bool := desc_matches col d.
+
 (* the hypotheses of the theorems, decided on the case *)
 Definition c17_promised (c : c17_case) : bool :=
-  let n := length (q_intents c) in
-  let lt := incl_lt (q_exts c) in
-  let t := q_table c in
-  Nat.eqb (length (q_exts c)) n && Nat.eqb (length (q_children c)) n &&
-  strict_orderb lt n && is_topb lt n (q_top c) &&
-  forallb (fun i => same_setb (nth i (q_children c) []) (lower_covers lt n i)) (seq 0 n) &&
-  antitone_intentsb lt (q_intents c) &&
-  forallb (in_rangeb (width t)) (q_intents c) && wfb t &&
-  Nat.eqb (length (q_names c)) (height t) && nodupb (q_names c).
+  let n := q_n c in
+  let lt := q_lt c in
+  strict_orderb lt n && is_topb lt n (q_true_top c) &&
+  Nat.eqb (length (q_names c)) (q_h c) && nodupb (q_names c) &&
+  match q_ctx c with
+  | TFormal intents t =>
+      Nat.eqb (length intents) n && antitone_intentsb lt intents &&
+      forallb (in_rangeb (width t)) intents && wfb t
+  | TMV intents h cols =>
+      Nat.eqb (length intents) n && antitone_mvb lt intents &&
+      forallb (fun col => Nat.eqb (col_len col) h) cols &&
+      forallb (fun ds => forallb (fun id => Nat.ltb (fst id) (length cols) &&
+                                           desc_matches (nth (fst id) cols (CAttr [])) (snd id)) ds) intents
+  end.
+
+(* does the implementation report the true cover relation as children_dict?  (informative: a
+   difference alone is C03's subject; here it matters through the trace) *)
+Definition c17_children_true (c : c17_case) : bool :=
+  Nat.eqb (length (q_children c)) (q_n c) &&
+  forallb (fun i => same_setb (nth i (q_children c) []) (lower_covers (q_lt c) (q_n c) i)) (seq 0 (q_n c)).
 
 Definition c17_eval (c : c17_case) : bool * bool :=
-  let L := q_lattice c in
-  let t := q_table c in
-  let h := height t in
+  let h := q_h c in
   let key := c17_key c in
-  let lt := incl_lt (q_exts c) in
-  let s := trace_final BBitarray L t id_enum17 in
+  let s := trace_final (q_ext c) (q_lattice c) id_enum17 in
   match q_impl c with
   | IOk (bot, tr) =>
       (negb (q_mono c) && dict_is bot h key (ts_bottom s) && dict_is tr h key (ts_traced s),
-       negb (q_mono c) && dict_is bot h key (bottoms_spec lt (q_intents c) t)
-                       && dict_is tr h key (traced_spec (q_intents c) t))
+       negb (q_mono c) && dict_is bot h key (bottoms_gen (q_lt c) (q_sat c) (q_n c))
+                       && dict_is tr h key (traced_gen (q_sat c) (q_n c)))
   | IErr e => (q_mono c && Nat.eqb e 9, q_mono c && Nat.eqb e 9)
   | IKeyErr _ => (false, false)
   end.
@@ -72,9 +111,8 @@ Definition c17_check (c : c17_case) : nat :=
   code_of same (ok || negb (q_mono c || c17_promised c)).
 
 Definition c17_show (c : c17_case) :=
-  let L := q_lattice c in let t := q_table c in
-  let s := trace_final BBitarray L t id_enum17 in
-  (c17_eval c, c17_promised c,
-   (tabulate (height t) (ts_bottom s), tabulate (height t) (ts_traced s)),
-   (tabulate (height t) (bottoms_spec (incl_lt (q_exts c)) (q_intents c) t),
-    tabulate (height t) (traced_spec (q_intents c) t))).
+  let s := trace_final (q_ext c) (q_lattice c) id_enum17 in
+  let h := q_h c in
+  (c17_eval c, (c17_promised c, c17_children_true c),
+   (tabulate h (ts_bottom s), tabulate h (ts_traced s)),
+   (tabulate h (bottoms_gen (q_lt c) (q_sat c) (q_n c)), tabulate h (traced_gen (q_sat c) (q_n c)))).
